@@ -55,6 +55,15 @@ def _mut_chunk(jobs):
     return out
 
 
+# (dialect, a statement of an unsupported type, a supported statement that starts with the same words)
+SILENT_PAIRS = [("snowflake", "create or replace sequence sq1", "create or replace table t as select a from s"),
+                ("snowflake", "copy into @stage from t0", "copy into t from @stage"),
+                ("snowflake", "create or replace procedure p() returns int language sql as 'select 1'", "create or replace view v as select a from s"),
+                ("postgres", "create temporary sequence sq1", "create temporary table t as select a from s"),
+                ("ansi", "create sequence sq1", "create table t as select a from s"),
+                ("mysql", "drop index i1 on t0", "drop table t0")]
+
+
 def chunks(xs, n):
     k = max(1, (len(xs) + n - 1) // n)
     return [xs[i:i + k] for i in range(0, len(xs), k)]
@@ -224,6 +233,25 @@ def run(chk):
                                [{"parse": [True], "outcome": "IndexError", "library": False}, {"parse": [True, False], "outcome": "ok", "library": True}], "selftest")
     chk.cov["traces_validated_against_impl"] -= 2
     chk.self_test("an escaping IndexError / a result for unparsable text is rejected", bad[1][1] != "ok" and bad[2][1] != "ok", "%s %s" % (bad[1][1], bad[2][1]))
+    # ---------------- silent mode under other dialects: an unsupported statement that starts with the same words as a supported one
+    # of the script (two real results compared: the script in silent mode against the script without the unsupported statements)
+    from .. import drive as _drive
+    n_pairs = 0
+    for dia, U, S in SILENT_PAIRS:
+        for order in ([U, S], [S, U], [U, S, U], [U, U, S, S], [S, U, S]):
+            script = ";\n".join(order)
+            ref = ";\n".join(x for x in order if x != U)
+            a = _drive.dump(script, dia, silent=True, want_graph=False)
+            b = _drive.dump(ref, dia, silent=False, want_graph=False)
+            n_pairs += 1
+            chk.count(["silent_pair", dia, script], nontrivial=True)
+            same = all(a.get(k) == b.get(k) for k in ("exc", "source", "target", "intermediate", "paths", "cyto_table"))
+            if not same or sum(1 for w in a.get("warnings", []) if "support analyzing" in w) != sum(1 for x in order if x == U):
+                chk.reject({"module": "Pipeline", "clause": "silent_skip_equals_removal", "dialect": dia, "exception": a.get("exc")},
+                           {"script": script, "dialect": dia, "silent": True, "observed": {k: a.get(k) for k in ("exc", "source", "target", "warnings")},
+                            "without_the_unsupported_statements": {k: b.get(k) for k in ("exc", "source", "target")},
+                            "how": "LineageRunner(script, dialect, silent_mode=True) against LineageRunner(script without the unsupported statements)"})
+    chk.cov["silent_pairs_compared"] = n_pairs
     chk.cov["rule"] = ("cases = (a) every single-run behaviour of Pipeline.tla with scripts <= %d statements (create/use/unparsable/unsupported, "
                        "silent on/off) replayed through the real runner; (b) %d strings: corpus statements and SQL rendered from Stmt.tla "
                        "programs under seeded token deletion/duplication/swap/insertion, cross-over, bracket nesting <= 30, templating and "
